@@ -371,6 +371,140 @@ func runC02(p *load.Program, r *core.Report) {
 	c02SendAfter(a, r)
 	c02InitKick(a, r)
 	c02PushTruthful(a, r)
+	c02AlivePredicate(a, r)
+	c02MessageFields(a, r, pushes)
+}
+
+// c02AlivePredicate: D8 — the predicate that decides whether a process accepts messages counts
+// exactly the live states (never Terminated or Zombee).
+func c02AlivePredicate(a *Anchors, r *core.Report) {
+	rule := "C02.D8 alive-predicate"
+	r.Floor(rule, 1)
+	ws := procWordSpec(a)
+	for _, f := range funcsOfPkgs(a.P, "node") {
+		if f.Parent() != nil || !recvIs(f, a.ProcessT) || f.Name() != "isAlive" {
+			continue
+		}
+		fn := fname(f)
+		key := "C02.D8|" + fn
+		inst := "a process accepts messages exactly in the states Init, Sleep, Running, WaitResponse"
+		// (state & mask) == state with a constant mask
+		var mask int64 = -1
+		eachInstr(f, func(in ssa.Instruction) {
+			b, ok := in.(*ssa.BinOp)
+			if !ok || b.Op != token.AND {
+				return
+			}
+			if c, ok := constInt(b.Y); ok {
+				mask = c
+			} else if c, ok := constInt(b.X); ok {
+				mask = c
+			}
+		})
+		want := ws.initv | ws.sleep | ws.running | ws.wait
+		switch {
+		case mask < 0:
+			r.Unk(rule, key, fn, a.P.Pos(f.Pos()), inst, "no constant state mask found in the predicate")
+		case mask&(ws.terminated|ws.zombie) != 0:
+			r.Bad(rule, key, fn, a.P.Pos(f.Pos()), inst, fmt.Sprintf("the mask %d contains Terminated/Zombee: a send to a dead process reports success and the message is never handled", mask))
+		case mask != want:
+			r.Bad(rule, key, fn, a.P.Pos(f.Pos()), inst, fmt.Sprintf("the mask is %d, the live states are %d: sends to a live process are refused (or accepted in a state that never handles them)", mask, want))
+		default:
+			r.OK(rule, key, fn, a.P.Pos(f.Pos()), inst, fmt.Sprintf("mask %d = Init|Sleep|Running|WaitResponse", mask))
+		}
+	}
+}
+
+// c02MessageFields: D9 — the mailbox message a routing function enqueues is built from that call's
+// own arguments: sender, payload, and (for requests) the reference.
+func c02MessageFields(a *Anchors, r *core.Report, pushes []mailboxPush) {
+	rule := "C02.D9 message-built-from-arguments"
+	r.Floor(rule, 10)
+	tnames := enumConsts(a.P.Named("gen", "MailboxMessageType"))
+	seq := map[string]int{}
+	for _, mp := range pushes {
+		f := mp.Fn
+		if f.Parent() != nil || !recvIs(f, a.NodeT) {
+			continue
+		}
+		qm := stripIface(mp.Msg)
+		if _, isCall := qm.(*ssa.Call); !isCall {
+			continue // not built here (Forward)
+		}
+		fn := fname(f)
+		seq[fn]++
+		key := fmt.Sprintf("C02.D9|%s|push#%d", fn, seq[fn])
+		stores := map[string]ssa.Value{}
+		if refs := qm.Referrers(); refs != nil {
+			for _, rf := range *refs {
+				if fa, ok := rf.(*ssa.FieldAddr); ok {
+					_, fl := fieldOwner(fa)
+					for _, rr := range *fa.Referrers() {
+						if st, ok := rr.(*ssa.Store); ok && st.Addr == ssa.Value(fa) {
+							stores[fl] = st.Val
+						}
+					}
+				}
+			}
+		}
+		fromPar := paramOfType(f, "gen.PID", 0)
+		var msgPar *ssa.Parameter
+		ps := f.Params[1:]
+		msgPar = ps[len(ps)-1]
+		var probs []string
+		if v, ok := stores["From"]; !ok || !isParamValue(v, fromPar) {
+			probs = append(probs, "From is not the sender given to this call: the receiver sees (and replies to) another process")
+		}
+		if v, ok := stores["Message"]; !ok || !(stripIface(v) == ssa.Value(msgPar) || isParamValue(stripIface(v), msgPar)) {
+			probs = append(probs, "Message is not the payload given to this call")
+		}
+		t, okT := stores["Type"]
+		tname := ""
+		if okT {
+			if c, ok := constInt(t); ok {
+				tname = tnames[c]
+			}
+		}
+		wantType := ""
+		switch {
+		case strings.HasPrefix(f.Name(), "RouteSend"):
+			wantType = "MailboxMessageTypeRegular"
+		case strings.HasPrefix(f.Name(), "RouteCall"):
+			wantType = "MailboxMessageTypeRequest"
+		case f.Name() == "sendExitMessage":
+			wantType = "MailboxMessageTypeExit"
+		case f.Name() == "sendEventMessage":
+			wantType = "MailboxMessageTypeEvent"
+		}
+		if wantType != "" && tname != wantType {
+			probs = append(probs, "Type is "+tname+", expected "+wantType+": the receiver dispatches it to the wrong handler")
+		}
+		if strings.HasPrefix(f.Name(), "RouteCall") {
+			v, ok := stores["Ref"]
+			okRef := false
+			if ok {
+				_, path, okp := fieldPath(v)
+				b, _, _ := fieldPath(v)
+				if okp && len(path) > 0 && path[len(path)-1] == "Ref" && spilledParam(b) != nil && namedOf(spilledParam(b).Type()) == "gen.MessageOptions" {
+					okRef = true
+				}
+				if okp && len(path) > 0 && path[len(path)-1] == "Ref" {
+					if pa, isP := b.(*ssa.Parameter); isP && namedOf(pa.Type()) == "gen.MessageOptions" {
+						okRef = true
+					}
+				}
+			}
+			if !okRef {
+				probs = append(probs, "Ref is not the reference given in the options: the reply cannot be matched by the caller")
+			}
+		}
+		inst := "the enqueued mailbox message carries this call's sender, payload" + map[bool]string{true: ", reference", false: ""}[strings.HasPrefix(f.Name(), "RouteCall")] + " and the right type"
+		if len(probs) > 0 {
+			r.Bad(rule, key, fn, a.P.Pos(mp.In.Pos()), inst, strings.Join(probs, "; "))
+		} else {
+			r.OK(rule, key, fn, a.P.Pos(mp.In.Pos()), inst, "From, Message, Type"+map[bool]string{true: ", Ref", false: ""}[strings.HasPrefix(f.Name(), "RouteCall")]+" verified")
+		}
+	}
 }
 
 // c02PushTruthful: D7 — in every QueueMPSC implementation Push returns true only after the item was
